@@ -518,6 +518,8 @@ def expected_struct(s: dict) -> List[List[int]]:
     out.append([21, 6, nl, 0, 0])
     out += [[21, 6, -1, i, i] for i in range(nl)]
     out.append([21, 7, len(tss), 1 if not tss else 0, 0])
+    out += [[21, 8, 0, 0, nl], [21, 8, 1, 0, nl - 1 if nl >= 1 else -1], [21, 8, 2, 0, 1 if nl >= 2 else -1],
+            [21, 8, 3, 0, -1], [21, 8, 4, 0, -1], [21, 8, 5, 0, -1]]
     return out
 
 
